@@ -1,4 +1,127 @@
-import Physt.Theorems.C01
+import Physt.Proofs.Account1D
+import Physt.Proofs.Lists
+/-!
+# C11 — indexing and slicing follow numpy semantics on the bin grid (1-D theorems; ND: C09/NDArray)
+-/
 namespace Physt
-theorem C11_placeholder : True := trivial
+open H1
+
+/-- **A slice is the list slice** of bins, contents and squared errors (Python slice
+    normalisation of negative / out-of-range bounds is `sliceBounds`). -/
+theorem C11_slice (fo : FloatOps) (h : H1) (start stop : Option Int) :
+    (h.getSlice fo start stop).bins fo = sliceList (h.bins fo) start stop ∧
+    (h.getSlice fo start stop).freq = sliceList h.freq start stop ∧
+    (h.getSlice fo start stop).err2 = sliceList h.err2 start stop ∧
+    (h.getSlice fo start stop).dtype = h.dtype ∧ (h.getSlice fo start stop).keep = h.keep :=
+  ⟨rfl, rfl, rfl, rfl, rfl⟩
+
+theorem sum_take_add_drop (l : List Rat) (k : Nat) : (l.take k).sum + (l.drop k).sum = l.sum := by
+  rw [← List.sum_append, List.take_append_drop]
+
+theorem sum_pySlice (l : List Rat) (a b : Nat) (hab : a ≤ b) :
+    (l.take a).sum + (pySlice l a b).sum + (l.drop b).sum = l.sum := by
+  unfold pySlice
+  have h1 := sum_take_add_drop l a
+  have h2 := sum_take_add_drop (l.drop a) (b - a)
+  have h3 : (l.drop a).drop (b - a) = l.drop b := by rw [List.drop_drop]; congr 1; omega
+  rw [h3] at h2
+  linarith
+
+theorem normIdx_le (n : Nat) (i : Int) : normIdx n i ≤ n := by
+  unfold normIdx; split <;> omega
+
+def loBound (n : Nat) (start : Option Int) : Nat := match start with | none => 0 | some s => normIdx n s
+def hiBound (n : Nat) (stop : Option Int) : Nat := match stop with | none => n | some s => normIdx n s
+
+theorem sliceBounds_eq (n : Nat) (start stop : Option Int) :
+    sliceBounds n start stop = (loBound n start, hiBound n stop) := by
+  cases start <;> cases stop <;> rfl
+
+def cutLeft (freq : List Rat) (start : Option Int) : Rat :=
+  match start with
+  | none => 0
+  | some s => if s = 0 then 0 else (sliceList freq none (some s)).sum
+
+def cutRight (freq : List Rat) (stop : Option Int) : Rat :=
+  match stop with
+  | none => 0
+  | some s => if s = 0 then 0 else (sliceList freq (some s) none).sum
+
+/-- what is cut off on the left is the content of the bins before the slice -/
+theorem cutLeft_eq (freq : List Rat) (start : Option Int) :
+    cutLeft freq start = (freq.take (loBound freq.length start)).sum := by
+  cases start with
+  | none => simp [cutLeft, loBound]
+  | some s =>
+    by_cases hs : s = 0
+    · subst hs; simp [cutLeft, loBound, normIdx]
+    · simp [cutLeft, loBound, hs, sliceList, sliceBounds, pySlice]
+
+/-- what is cut off on the right is the content of the bins after the slice (the slice is not empty) -/
+theorem cutRight_eq (freq : List Rat) (stop : Option Int) (hpos : 0 < hiBound freq.length stop) :
+    cutRight freq stop = (freq.drop (hiBound freq.length stop)).sum := by
+  cases stop with
+  | none => simp [cutRight, hiBound]
+  | some s =>
+    by_cases hs : s = 0
+    · subst hs; simp [hiBound, normIdx] at hpos
+    · have hle := normIdx_le freq.length s
+      simp only [cutRight, hiBound, hs, if_false, sliceList, sliceBounds, pySlice]
+      rw [List.take_of_length_le (by simp)]
+
+/-- **Conservation.** For a non-empty contiguous slice of a histogram that tracks its missed
+    values, the contents cut off on the left go to underflow and those on the right to overflow:
+    `total + underflow + overflow` is unchanged. -/
+theorem C11_conserve (fo : FloatOps) (h : H1) (start stop : Option Int) (u o : Rat)
+    (hk : h.keep = true) (hu : h.under = some u) (ho : h.over = some o)
+    (hne : loBound h.freq.length start < hiBound h.freq.length stop) :
+    ∃ u' o', (h.getSlice fo start stop).under = some u' ∧ (h.getSlice fo start stop).over = some o' ∧
+      (h.getSlice fo start stop).total + u' + o' = h.total + u + o := by
+  have hcl := cutLeft_eq h.freq start
+  have hcr := cutRight_eq h.freq stop (by omega)
+  have hunder : (h.getSlice fo start stop).under = some (u + cutLeft h.freq start) := by
+    simp only [getSlice, hk, if_true, underflow, hu, nadd, cutLeft]; rfl
+  have hover : (h.getSlice fo start stop).over = some (o + cutRight h.freq stop) := by
+    simp only [getSlice, hk, if_true, overflow, ho, nadd, cutRight]; rfl
+  refine ⟨_, _, hunder, hover, ?_⟩
+  have hs := sum_pySlice h.freq _ _ (le_of_lt hne)
+  have htot : (h.getSlice fo start stop).total
+      = (pySlice h.freq (loBound h.freq.length start) (hiBound h.freq.length stop)).sum := by
+    simp only [getSlice, H1.total, sliceList, sliceBounds_eq]
+  rw [htot, hcl, hcr]
+  unfold H1.total
+  linarith
+
+/-- **Non-contiguous selections** (mask, index array): the selected bins, contents and errors in
+    increasing bin order; underflow / overflow read as unknown (NaN). -/
+theorem C11_unknown (fo : FloatOps) (h : H1) (idx : List Nat) :
+    (h.getIndices fo idx).underflow = none ∧ (h.getIndices fo idx).overflow = none ∧
+    (h.getIndices fo idx).freq = idx.filterMap (h.freq[·]?) ∧
+    (h.getIndices fo idx).err2 = idx.filterMap (h.err2[·]?) ∧
+    (h.getIndices fo idx).bins fo = idx.filterMap ((h.bins fo)[·]?) :=
+  ⟨rfl, rfl, rfl, rfl, rfl⟩
+
+/-- an index array is taken in increasing order, every bin at most once; an entry out of range
+    refuses the whole selection -/
+theorem C11_index_array (n : Nat) (idx : List Int) (l : List Nat) (h : normIndexArray n idx = .ok l) :
+    l.Pairwise (· < ·) ∧ ∀ j ∈ l, j < n := by
+  unfold normIndexArray at h
+  simp only [bind, Except.bind, pure, Except.pure] at h
+  split at h
+  · cases h
+  · cases h
+    constructor
+    · exact List.Pairwise.sublist List.filter_sublist (List.pairwise_lt_range)
+    · intro j hj
+      exact List.mem_range.mp (List.mem_filter.mp hj).1
+
+theorem C11_index_array_refuse (n : Nat) (i : Int) (rest : List Int) (hout : ¬ (0 ≤ i ∧ i < n) ∧ ¬ (i < 0 ∧ -(n : Int) ≤ i)) :
+    ∃ e, normIndexArray n (i :: rest) = .error e := by
+  unfold normIndexArray
+  simp [List.mapM_cons, bind, Except.bind, hout.1, hout.2, throw, throwThe, MonadExceptOf.throw]
+
+/-! Non-vacuity -/
+example : sliceList [10, 20, 30, 40, 50] (some (-3)) (some 4) = ([30, 40] : List Rat) := by decide +kernel
+example : (normIndexArray 5 [2, -1, 2, 0]).toOption = some [0, 2, 4] := by decide +kernel
+
 end Physt
